@@ -34,6 +34,21 @@ Lemma ex_final_facts : stop_returned (sh ex_final) = true /\ map (fun te => ev_i
   /\ map ev_id (begun (log (sh ex_final))) = [1%N; 2%N; 3%N] /\ all_finished ex_final = true.
 Proof. vm_compute. auto. Qed.
 
+(* "Trigger from inside a callback while stop() is in progress": stop() has just been called (queue: 1, 2; main is about to
+   read the flags and join the queue), the worker has entered process(1) and is about to call Trigger for event 3 from
+   inside the callback *)
+Definition ex_cb : state := fst (run_model ex_cfg (repeat 0 10 ++ repeat 2 3 ++ repeat 1 3)).
+Lemma ex_cb_reach : reach the_prog ex_cfg ex_cb.
+Proof. apply run_sched_reach. apply reach_init. Qed.
+Lemma ex_cb_facts :
+  stop_called (sh ex_cb) = true /\ stop_returned (sh ex_cb) = false /\
+  hd_error (cont (tworker ex_cb)) = Some (KCall (Ev 3 [])) /\ log (sh ex_cb) = [LBegin 1 (Ev 1 [Ev 3 []])] /\
+  (* a producer can step in between the operations of the callback ... *)
+  enabled_set the_prog true ex_cb = [0; 1] /\
+  (* ... and the event triggered during stop() is processed before stop() returns *)
+  map ev_id (begun (log (sh ex_final))) = [1%N; 2%N; 3%N] /\ stop_returned (sh ex_final) = true.
+Proof. vm_compute. auto 10. Qed.
+
 (* ---- the original skeleton: stop() cleared the flag BEFORE Queue.join() *)
 Definition old_cfg : config := mkConfig true [Ev 1 []; Ev 2 []] [].
 Definition old_deadlock_sched : list nat := repeat 0 14 ++ repeat 1 3.
